@@ -10,8 +10,8 @@ from tools import vlib as _vlib
 PID = "C15"
 READY = False
 MANIFEST = {
-    "level_text": "",
-    "level_note": "",
+    "level_text": "Lean 4 theorems about a statement-by-statement model of Message.cpp's encode/decode, for all six payload kinds and unbounded field sizes: every message whose type tag names its payload and whose fields fit their wire widths (ids 32 bytes, lengths and TTL < 2^32, nonces < 2^64) decodes from its encoding to the same message with the nearest supported version, the announce PoW nonce surviving exactly from version 3 (roundtrip_any_version; roundtrip for versions 1..4), and the version byte written is max 1 (min 4 v) for every v (clamp). Version limits, type tags, id sizes, the encoder's and the decoder's nonce thresholds and the body of clamp_version are regenerated from the source on every run, and the theorems state the property's literals 1, 4, 3 against them. The model is tied to the code by a differential run of the real encode/decode(/signed) against the compiled Lean model on structured messages of every kind x every version byte 0..255 x boundary sizes, with the Lean specification (not the model) judging each round trip of the implementation.",
+    "level_note": 'Trusted: Lean kernel; the hand transcription of Message.cpp into Model/Message.lean (checked by the differential run only; shift/or big-endian code modelled as base-256 arithmetic); the harness and its canonical message syntax. Holds on the tree with fixes/C15-announce-nonce-v3.patch (the unrepaired encoder loses version-3 announces; the check reports that with a replay).',
     "technique": "Lean 4 proof (structural, all message shapes and sizes) + model/implementation differential correspondence with Lean monitor",
 }
 
